@@ -131,6 +131,21 @@ CHECKS["C18"] = dict(
          "property (DESIGN 6.3). Quick tier uses a sample of files, all their cuts.",
     design="4 C18")
 
+CHECKS["C14"] = dict(
+    level="model_checking",
+    technique="TLA+ spec Region.tla/Base.tla (integer winding number, on-segment test, shoelace, "
+              "integer square-root bounds) checked by TLC; exhaustive small-scope polygons x query "
+              "points replayed on gdstk and validated by TLC",
+    text="TLC enumerates every vertex list of length 0..4 on a 3x3 (thorough 4x4) grid and checks "
+         "the membership laws (rotation/reversal invariance); gdstk's contain() is evaluated for "
+         "each list at every point of the half-grid one cell beyond it (121 points), signed_area, "
+         "area, perimeter with and without repetition, and the group queries inside / all_inside / "
+         "any_inside / contain_all / contain_any on palette groups and point lists including empty "
+         "ones; every result is compared by TLC with the exact integer semantics.",
+    note="Trusted: TLC, Base.tla arithmetic. Coordinates are half-integers (exact doubles); "
+         "bounded-exhaustive, not all polygons.",
+    design="4 C14")
+
 NOT_YET = {}
 
 
